@@ -223,7 +223,7 @@ class CaseGen:
         if not modes[1]:
             weights = dict(weights, mask=0.0)
         names_, ws = zip(*weights.items())
-        ban, last_gen = set(), False
+        ban, last_gen, branch_ban = set(), False, set()
         for _ in range(nops):
             kind = rng.choices(names_, ws)[0]
             pi = None
@@ -253,9 +253,20 @@ class CaseGen:
                 base = None
                 if kind == "gen":
                     # a branch: mostly continued from the state the previous generative step produced
-                    pi = len(runner.pool) - 1 if (rng.random() < (0.7 if last_gen else 0.4)) else rng.randrange(len(runner.pool))
+                    if rng.random() < (0.75 if last_gen else 0.35):
+                        pi = len(runner.pool) - 1
+                        if not last_gen:
+                            branch_ban = set()
+                    else:
+                        # a new branch from an older state: it stays out of a subnet the real episode has
+                        # entered since, so that it ends somewhere the environment's own state is not
+                        pi = rng.randrange(len(runner.pool))
+                        p_ = runner.lay[0] + runner.lay[1]
+                        cur_, old_ = np.asarray(runner.env.current_state.tensor), np.asarray(runner.pool[pi].tensor)
+                        newer = sorted({runner.addrs[i][0] for i in range(len(cur_)) if cur_[i][p_] and not old_[i][p_]})
+                        branch_ban = {rng.choice(newer)} if newer and rng.random() < 0.6 else set()
                     base = runner.pool[pi]
-                ai = self.pick_action(runner, flat, by_target, state=base, ban=ban)
+                ai = self.pick_action(runner, flat, by_target, state=base, ban=(ban | branch_ban) if kind == "gen" else ban)
                 wa = flat[ai]
                 r = rng.random()
                 if r < cfg.get("obj_frac", 0.1):
@@ -290,6 +301,17 @@ class CaseGen:
                 # scans of the host whose access just changed (process scans report the access level)
                 scans = [i for i in by_target.get(tuple(wa[1]), []) if flat[i][0] in (0, 1, 3)]
                 runner.scan_queue = (runner.scan_queue + [i for i in scans if flat[i][0] == 3 or rng.random() < 0.4])[-6:]
+        if weights.get("goal", 0) > 0 and rng.random() < cfg.get("final_goal_sweep", 0.5):
+            # the goal query about EVERY state handed out so far (other episodes, abandoned branches), asked
+            # while the environment sits wherever its own history has left it
+            idxs = list(range(len(runner.pool)))
+            rng.shuffle(idxs)
+            for pi in idxs[:40]:
+                op = [3, pi]
+                out = runner.run_op(op)
+                ops.append(op)
+                outs.append(out)
+                self.note(op, out, flat)
         errs = getattr(runner, "last_error", None)
         self.stats["scenario:" + ("random" if name == "random" else "named")] += 1
         self.stats[f"hosts:{len(sd['hosts'])}"] += 1
